@@ -80,6 +80,9 @@ func (w *W) Expired() bool {
 	return w.expired
 }
 
+// Deadline is the instant at which enumeration should stop (zero = none).
+func (w *W) Deadline() time.Time { return w.deadline }
+
 // Scratch returns a private scratch directory on tmpfs for this worker.
 func (w *W) Scratch() string { return w.scratch }
 
@@ -91,17 +94,19 @@ func (w *W) N() int     { return w.n }
 func (w *W) Owns(ord int) bool { return w.n <= 1 || ord%w.n == w.idx }
 
 type subState struct {
-	Name        string         `json:"name"`
-	Variant     string         `json:"variant"`
-	Evals       int64          `json:"evals"`
-	Nontrivial  int64          `json:"nontrivial"`
-	Transitions int64          `json:"transitions"`
-	States      int64          `json:"states"`
-	Outcomes    map[string]int `json:"outcomes"`
-	Samples     []any          `json:"samples"`
-	Complete    bool           `json:"complete"`
-	Skipped     string         `json:"skipped,omitempty"`
-	Notes       map[string]any `json:"notes,omitempty"`
+	Name        string           `json:"name"`
+	Variant     string           `json:"variant"`
+	Evals       int64            `json:"evals"`
+	Nontrivial  int64            `json:"nontrivial"`
+	Transitions int64            `json:"transitions"`
+	States      int64            `json:"states"`
+	Outcomes    map[string]int   `json:"outcomes"`
+	Samples     []any            `json:"samples"`
+	Complete    bool             `json:"complete"`
+	Skipped     string           `json:"skipped,omitempty"`
+	Notes       map[string]any   `json:"notes,omitempty"`
+	Sums        map[string]int64 `json:"sums,omitempty"`
+	Maxs        map[string]int64 `json:"maxs,omitempty"`
 	ord         int
 	owned       int
 	journal     bool
@@ -200,6 +205,31 @@ func (s *Sub[C]) Active() bool {
 
 // Note attaches a key/value to the sub-check's evidence.
 func (s *Sub[C]) Note(k string, v any) { s.st.Notes[k] = v }
+
+// AddNote accumulates a counter in the evidence (summed over workers).
+func (s *Sub[C]) AddNote(k string, n int) {
+	if s.st.Sums == nil {
+		s.st.Sums = map[string]int64{}
+	}
+	s.st.Sums[k] += int64(n)
+}
+
+// MaxNote keeps the maximum of a measure in the evidence.
+func (s *Sub[C]) MaxNote(k string, n int) {
+	if s.st.Maxs == nil {
+		s.st.Maxs = map[string]int64{}
+	}
+	if int64(n) > s.st.Maxs[k] {
+		s.st.Maxs[k] = int64(n)
+	}
+}
+
+// Count adds explicit evaluation/state/transition counts (explorer-driven sub-checks).
+func (s *Sub[C]) Count(evals, states, transitions int64) {
+	s.st.Evals += evals
+	s.st.States += states
+	s.st.Transitions += transitions
+}
 
 // Skip records that the sub-check could not run (e.g. scaled constant not
 // found); never an alarm.
@@ -413,7 +443,8 @@ func runWorker(cfg Config, body func(w *W), tier string, seed int64, shard, vari
 	if n == 0 {
 		n = 1
 	}
-	if cfg.GOMAXPROCS1 {
+	if cfg.GOMAXPROCS1 || strings.HasPrefix(variant, "sched") {
+		// scheduler-controlled workers: one P per process (hand-offs are cheaper)
 		runtime.GOMAXPROCS(1)
 	}
 	w := &W{cfg: cfg, Tier: tier, Seed: seed, Variant: variant, idx: idx, n: n, out: bufio.NewWriter(os.Stdout), skip: map[string]int{}}
@@ -574,6 +605,18 @@ func runParent(cfg Config, tier string, seed int64, budget time.Duration) int {
 				}
 				for k, v := range s.Notes {
 					a.Notes[k] = v
+				}
+				for k, v := range s.Sums {
+					if n, ok := a.Notes[k].(int64); ok {
+						a.Notes[k] = n + v
+					} else {
+						a.Notes[k] = v
+					}
+				}
+				for k, v := range s.Maxs {
+					if n, ok := a.Notes[k].(int64); !ok || v > n {
+						a.Notes[k] = v
+					}
 				}
 			}
 		}
